@@ -256,12 +256,14 @@ func (w *world) randFilter() filt {
 	r := w.r
 	f := filt{maxHops: []int{0, 0, 2, 3, 4, 5, 7, -1}[r.Intn(8)], allow: r.Intn(3) - 1}
 	if r.Chance(40) {
-		for i := r.Range(1, 2); i > 0; i-- {
+		for i := r.Range(1, 3); i > 0; i-- {
 			f.asBlack = append(f.asBlack, w.randIA().AS())
 		}
 	}
-	if r.Chance(25) {
-		f.isdBlack = append(f.isdBlack, isds[r.Intn(len(isds))])
+	if r.Chance(30) { // 1-3 entries, in any order (block lists are not sorted in the configuration)
+		for i := r.Range(1, 3); i > 0; i-- {
+			f.isdBlack = append(f.isdBlack, []addr.ISD{1, 2, 3, 7, 9}[r.Intn(5)])
+		}
 	}
 	return f
 }
